@@ -52,6 +52,10 @@ class Kit:
     schema_key = "schema_version"
     levels = LEVELS
     normalisers: tuple = ()     # ((name, JSON -> JSON), ...): each hides the differences of one listed root cause
+    ignored = None              # JSON -> JSON applied to both sides before anything is compared (witness specs only)
+
+    def configure(self, spec: dict) -> None:
+        """ per-spec adjustments, called before anything else """
 
     def module(self):
         raise NotImplementedError
@@ -127,6 +131,10 @@ def _compare(kind: str, got: str, want: str, where: dict, deferred, kit: Kit) ->
     if got == want:
         return
     one, two = base._loads(got), base._loads(want)
+    if kit.ignored is not None:
+        one, two = kit.ignored(one), kit.ignored(two)
+        if one == two:
+            return
     for name, normalise in kit.normalisers:
         one, two = normalise(one), normalise(two)
         if one == two:
@@ -148,6 +156,7 @@ def drive(spec: dict, kit: Kit) -> dict:
 
 def _drive(spec: dict, kit: Kit) -> dict:
     base = _b()
+    kit.configure(spec)
     env0 = {"rid": spec["rid"], "variant": None}
     options = kit.options(spec, env0)
     built = base._guard(lambda: kit.record(spec, spec["rid"]))
@@ -214,11 +223,18 @@ def _drive(spec: dict, kit: Kit) -> dict:
                     classes.add("refused_on_apply")
                     continue
                 if level == "class":
-                    # the guard may sit in run_on_record, the second call main.run_module makes
+                    # the guard may sit in run_on_record, the second call main.run_module makes ...
                     with kit.rerun_blocked(), base._no_external_tools():
                         second = base._guard(lambda: kit.module().run_on_record(fresh, again, options))
                     if second[0] == "exc" and second[1] == "Rerun":
                         classes.add("refused_by_run_on_record")
+                        continue
+                    # ... or in regenerate_previous_results, the first one (from_json alone is then not the
+                    # module's answer)
+                    other = kit.record(spec, env["rid"], env["variant"])
+                    whole = _regenerate(kit, "module", base._loads(current[step.get("src", "post")]), other, options)
+                    if base._refused(whole):
+                        classes.add("refused_by_regenerate")
                         continue
                 wanted = kit.fresh_text(spec, env, options)
                 if wanted is not None and text == wanted:
@@ -1038,6 +1054,13 @@ class RippKit(Kit):
             return data
         self.normalisers = (("set_order", set_order), ("precursor_function", _without_precursor_function))
 
+    def configure(self, spec):
+        if spec.get("order_witness"):
+            # the committed witness of the set-order finding: every RiPP result with a motif also shows the lost
+            # precursor gene function, which has its own entry and witness; it is left out of this one so that
+            # the witness stops failing when the order alone is repaired
+            self.ignored = _without_precursor_function
+
     def module(self):
         import importlib
         return importlib.import_module(f"antismash.modules.{self.info['package']}")
@@ -1730,10 +1753,6 @@ def _sig_t2pks_set_order(sub, spec, clause, detail) -> bool:
 
 def _sig_ripp_set_order(sub, spec, clause, detail) -> bool:
     path = _path_of(detail)
-    if sub in RIPP_SUBS and clause == "effects_precursor_function" and spec.get("order_witness"):
-        # the committed witness only: the order of a set of strings follows the hash seed; under a seed where the
-        # two lists happen to agree the witness still shows the other RiPP finding, which is not a new violation
-        return True
     return (sub in RIPP_SUBS and clause == "json_set_order"
             and any(key in path for key in ("new_cds_features", "/protoclusters", "protoclusters with motifs")))
 
